@@ -24,6 +24,15 @@ AArch64 half (`e2e.a64`, `analyseA64`): the same comparison on
 (d) shipped AArch64 models (tx2, a64fx) restricted to the reachable entries.
 
 A disagreement is `ctx.correspondence_break("e2e", detail)`.
+
+Optimal scheduling (`opt=True`, driver op `e2e.opt`, `EndToEnd.analyseWith`): the same runs WITHOUT `--fixed`.  The balancer
+`ArchSemantics.assign_optimal_throughput` (called twice by `osaca.inspect`) is wrapped: the per-line `port_pressure` after
+call 1 (P1) and after call 2 (P2, what the CLI prints) are sent with the file text, the model and the options.  The model
+evaluates `analyseWith ... P2` -- compared exactly as under `--fixed`: only the pressure cells are the implementation's, the
+totals, formatting, graph, CP, LCD, selection are the model's own (`ctx.correspondence_break("e2e-opt", ...)`) -- and judges
+P1 admissible or not (`Spec.checkFeasible` per instruction line against the line's micro-ops, slack INC/2 per micro-op):
+an inadmissible first-pass vector is `ctx.violation(..., key=None)` with a replay of kind `e2e-opt`; the final state is only
+counted (known C01 finding `second-pass`).
 """
 import io
 import os
@@ -381,10 +390,48 @@ def body_for(rng, model, parser):
 
 
 # --------------------------------------------------------------------------- the real run
-def run_cli(arch, path, lines_spec, flag_deps, ignore_unknown):
+class OptCapture:
+    """wrap ArchSemantics.assign_optimal_throughput for the duration of a run: the per-line `port_pressure` after every
+    top-level call (the recursion over alternative port assignments is inside a call), and the call that raised"""
+
+    def __enter__(self):
+        from osaca.semantics import ArchSemantics
+
+        self.cls = ArchSemantics
+        self.orig = ArchSemantics.assign_optimal_throughput
+        self.snaps, self.raised_in, self.depth, self.pre = [], None, 0, None
+        me = self
+
+        def assign_optimal_throughput(sem, kernel, start=0):
+            me.depth += 1
+            if me.depth == 1 and me.pre is None:
+                me.pre = [(i.line_number, [float(v) for v in (i.port_pressure or [])]) for i in kernel]
+            try:
+                try:
+                    return me.orig(sem, kernel, start)
+                except BaseException:
+                    if me.depth == 1 and me.raised_in is None:
+                        me.raised_in = len(me.snaps) + 1
+                    raise
+            finally:
+                me.depth -= 1
+                if me.depth == 0 and me.raised_in is None:
+                    me.snaps.append([(i.line_number, [float(v) for v in (i.port_pressure or [])]) for i in kernel])
+
+        ArchSemantics.assign_optimal_throughput = assign_optimal_throughput
+        return self
+
+    def __exit__(self, *a):
+        self.cls.assign_optimal_throughput = self.orig
+        return False
+
+
+def run_cli(arch, path, lines_spec, flag_deps, ignore_unknown, fixed=True):
+    """the real command line in-process; `fixed=False`: the default (optimal) scheduling, with the pressures after each of
+    the balancing passes in `res["snaps"]` and the pass that raised (if any) in `res["balancer_raised"]`"""
     import osaca.osaca as O
 
-    argv = ["--arch", arch, "--fixed", "--lcd-timeout", "-1"]
+    argv = ["--arch", arch] + (["--fixed"] if fixed else []) + ["--lcd-timeout", "-1"]
     if ignore_unknown:
         argv.append("--ignore-unknown")
     if flag_deps:
@@ -393,7 +440,7 @@ def run_cli(arch, path, lines_spec, flag_deps, ignore_unknown):
         argv += ["--lines", lines_spec]
     argv.append(path)
     out = io.StringIO()
-    with pipeline.Capture() as c:
+    with pipeline.Capture() as c, OptCapture() as oc:
         try:
             p = O.create_parser()
             args = p.parse_args(argv)
@@ -406,8 +453,10 @@ def run_cli(arch, path, lines_spec, flag_deps, ignore_unknown):
             res = dict(c.cap)
             res["error"] = "%s: %s" % (type(e).__name__, str(e)[:200])
             res["exc"] = type(e).__name__
+            res["snaps"], res["balancer_raised"], res["pre"] = oc.snaps, oc.raised_in, oc.pre
             return res
         res = dict(c.cap)
+    res["snaps"], res["balancer_raised"], res["pre"] = oc.snaps, oc.raised_in, oc.pre
     printed = out.getvalue()
     res["text"] = printed[:-1] if printed.endswith("\n") else printed
     return res
@@ -504,9 +553,93 @@ def compare_case(ctx, c, reply, st):
     st["lines"] += len(res["kernel"])
     if text != res["text"]:
         d = first_text_diff(text, res["text"])
+        if c.get("opt") and totals_tie_only(text, res["text"], m, im):
+            # the float column sum sits on a half-cent: `round(x, 2)` of the implementation's float sum and of the exact sum
+            # of the same cells may be different neighbours (README: either neighbour is accepted at an exact rounding tie)
+            st["totals_rounding_ties"] = st.get("totals_rounding_ties", 0) + 1
+            return None
         return "report text differs at line %s: model %r impl %r" % (d["line"], d["model"], d["impl"])
     st["reports_equal"] += 1
     return None
+
+
+def totals_tie_only(a, b, m, im):
+    """the two report texts differ in ONE line only, the implementation's column sums differ from the model's only in columns
+    whose exact sum is a rounding tie (`pipeline.diff_model_impl` has accepted them), and that line shows exactly these sums"""
+    la, lb = (a or "").split("\n"), (b or "").split("\n")
+    if len(la) != len(lb):
+        return False
+    diff = [i for i in range(len(la)) if la[i] != lb[i]]
+    if len(diff) != 1:
+        return False
+    cols = [j for j, (x, y) in enumerate(zip(m["colsums"], im["colsums"])) if abs(float(x) - y) > 1e-9]
+    if not cols:
+        return False
+    ta, tb = la[diff[0]], lb[diff[0]]
+    na, nb = re.findall(r"\d+\.\d+", ta), re.findall(r"\d+\.\d+", tb)
+    if len(na) != len(nb) or re.sub(r"\d+\.\d+", "#", ta).replace(" ", "") != re.sub(r"\d+\.\d+", "#", tb).replace(" ", ""):
+        return False
+    changed = [(x, y) for x, y in zip(na, nb) if x != y]
+    return 0 < len(changed) <= len(cols) and all(abs(float(x) - float(y)) <= 0.01 + 1e-9 for x, y in changed)
+
+
+def press_field(snap):
+    return "|".join("%d:%s" % (n, ",".join(core.frac(v) for v in vec)) for n, vec in snap)
+
+
+OPT_TOL = "1/1000000000"      # slack of the admissibility test on top of INC/2 per micro-op (the cells are float sums)
+
+
+def judge_opt_case(ctx, c, reply, st, replay_info):
+    """optimal scheduling: admissibility of the implementation's pressures as judged by the model (`Spec.checkFeasible` per
+    instruction line of the kernel, slack INC/2 per micro-op): after the FIRST balancing pass a failure is a violation with a
+    concrete input; after the second (the state the CLI prints) it is the known second-pass finding of C01 -- counted only"""
+    if not reply.startswith("ok "):
+        return
+    extra = {}
+    for tok in reply.split(" ")[1:]:
+        k, _, v = tok.partition("=")
+        if k in ("adm1", "adm2", "nuops"):
+            extra[k] = v
+    st["admissibility_judged"] = st.get("admissibility_judged", 0) + 1
+    st["lines_judged"] = st.get("lines_judged", 0) + len([t for t in extra.get("nuops", "").split("|") if t])
+    st["uops_judged"] = st.get("uops_judged", 0) + sum(int(t.split(":")[1]) for t in extra.get("nuops", "").split("|") if t)
+    snaps = c["res"].get("snaps") or []
+    if len(snaps) >= 2 and snaps[0] != snaps[1]:
+        st["second_pass_moved"] = st.get("second_pass_moved", 0) + 1
+    uniform = c["res"].get("pre")
+    if uniform is not None and snaps and snaps[0] != uniform:
+        st["balanced_nonuniform"] = st.get("balanced_nonuniform", 0) + 1
+
+    def entries(v):
+        out = []
+        for t in ([] if v == "ok" else v.split("|")):
+            ln, clause, lt1 = (t.split(":") + ["", "0"])[:3]
+            out.append((int(ln), clause, lt1 == "1"))
+        return out
+
+    if entries(extra.get("adm2", "ok")):
+        st["final_state_inadmissible"] = st.get("final_state_inadmissible", 0) + 1
+        ctx.count("e2e_opt_final_state_inadmissible")
+    bad = entries(extra.get("adm1", "ok"))
+    if [b for b in bad if b[2]]:
+        # FINDING (not raised here, reported in notes/EndToEnd.md): a load/store throughput multiplier < 1 scales the line's
+        # pressure, but the balancer caps what it moves per micro-op and port by the UNSCALED share `cycles / len(ports)`
+        # of `port_uops`: it moves cycles of other micro-ops to ports they cannot use.  No shipped model has a multiplier < 1.
+        st["first_pass_inadmissible_multiplier_lt_1"] = st.get("first_pass_inadmissible_multiplier_lt_1", 0) + 1
+        ctx.count("e2e_opt_first_pass_inadmissible_multiplier_lt_1")
+    bad = [b for b in bad if not b[2]]
+    if bad:
+        st["first_pass_inadmissible"] = st.get("first_pass_inadmissible", 0) + 1
+        line, clause, _ = bad[0]
+        vec = dict(snaps[0]).get(line) if snaps else None
+        txt = c["file"].split("\n")
+        src = txt[line - 1].strip() if 0 < line <= len(txt) else ""
+        what = ("optimal scheduling: after the first balancing pass the port pressure %s of line %d `%s` is not a feasible split of "
+                "the line's micro-ops within INC/2 per micro-op (clause: %s)" % (vec, line, src, clause))
+        ctx.violation(what, dict(replay_info, kind="e2e-opt", file=c["file"], lines_arg=c["lines_arg"], flag_deps=c["flag_deps"],
+                                 ignore_unknown=c["ignore_unknown"], isa=c["isa"], line=line, clause=clause, pressure=vec),
+                      key=None)
 
 
 def variants_of(rng, body, isa="x86"):
@@ -519,8 +652,9 @@ def variants_of(rng, body, isa="x86"):
     return pick
 
 
-def run_cases(ctx, arch, ymodel, stlf, pidx, files, st, tag, isa="x86"):
-    """files: [(variant name, file text, --lines or None, flag_deps, ignore_unknown)]"""
+def run_cases(ctx, arch, ymodel, stlf, pidx, files, st, tag, isa="x86", opt=False, replay_info=None):
+    """files: [(variant name, file text, --lines or None, flag_deps, ignore_unknown)]; `opt`: run the command line WITHOUT
+    `--fixed` and evaluate `analyseWith` on the implementation's pressures (driver op `e2e.opt`)"""
     cfg = ISA_CFG[isa]
     work = os.path.join(ctx.env.work, "e2e")
     os.makedirs(work, exist_ok=True)
@@ -530,28 +664,53 @@ def run_cases(ctx, arch, ymodel, stlf, pidx, files, st, tag, isa="x86"):
         st["files"] += 1
         with open(path, "w") as f:
             f.write(text)
-        res = run_cli(arch, path, spec, fd, iu)
+        res = run_cli(arch, path, spec, fd, iu, fixed=not opt)
         if "text" in res:
             version, fname, archname, stamp = header_bits(res["text"])
         else:
             version, fname, archname, stamp = "", path, arch.upper(), ""
         mode = ("L", spec) if spec is not None else ("M", cfg["isa_arg"])
-        reqs.append(" ".join([cfg["op"], esc(ymodel), esc(stlf), esc(pidx), esc(mode[0]), esc(mode[1]), esc("1" if fd else "0"),
-                              esc("1" if iu else "0"), esc(version), esc(fname), esc(archname), esc(stamp), esc(text)]))
-        cases.append({"variant": vname, "file": text, "lines_arg": spec, "flag_deps": fd, "ignore_unknown": iu, "res": res, "isa": isa})
+        case = {"variant": vname, "file": text, "lines_arg": spec, "flag_deps": fd, "ignore_unknown": iu, "res": res, "isa": isa,
+                "opt": opt}
+        args = [esc(ymodel), esc(stlf), esc(pidx), esc(mode[0]), esc(mode[1]), esc("1" if fd else "0"),
+                esc("1" if iu else "0"), esc(version), esc(fname), esc(archname), esc(stamp), esc(text)]
+        if opt:
+            snaps = res.get("snaps") or []
+            if res.get("balancer_raised"):
+                # the balancer itself raised: pass 1 -> a failure of the scheduler on a concrete input; pass 2 -> the known
+                # second-pass finding of C01 (TypeError / IndexError in the state after the second call), counted only
+                st["runs"] += 1
+                if res["balancer_raised"] == 1:
+                    ctx.violation("optimal scheduling: the first balancing pass raised %s" % res.get("error"),
+                                  dict(replay_info or {}, kind="e2e-opt", file=text, lines_arg=spec, flag_deps=fd, ignore_unknown=iu,
+                                       isa=isa, exception=res.get("exc")), key=None)
+                    st["first_pass_raised"] = st.get("first_pass_raised", 0) + 1
+                else:
+                    st["second_pass_raised"] = st.get("second_pass_raised", 0) + 1
+                    ctx.count("e2e_opt_second_pass_raised")
+                continue
+            p1 = press_field(snaps[0]) if len(snaps) >= 1 else ""
+            p2 = press_field(snaps[1]) if len(snaps) >= 2 else p1
+            reqs.append(" ".join(["e2e.opt", esc(cfg["isa_arg"])] + args + [esc(p1), esc(p2), esc(OPT_TOL)]))
+        else:
+            reqs.append(" ".join([cfg["op"]] + args))
+        cases.append(case)
     replies = ctx.driver.ask(reqs) if reqs else []
     for c, rep in zip(cases, replies):
         st["runs"] += 1
         try:
             d = compare_case(ctx, c, rep, st)
+            if opt and not d:
+                judge_opt_case(ctx, c, rep, st, replay_info or {})
         except Exception as e:  # noqa
             d = "comparison failed: %s: %s (reply %s)" % (type(e).__name__, e, rep[:80])
         if d:
             st["disagreements"] += 1
             if st["disagreements"] <= 4:
-                ctx.correspondence_break("e2e", {"where": tag, "isa": isa, "variant": c["variant"], "lines_arg": c["lines_arg"],
-                                                 "flag_deps": c["flag_deps"], "ignore_unknown": c["ignore_unknown"],
-                                                 "file": c["file"][:1500], "difference": d})
+                ctx.correspondence_break("e2e-opt" if opt else "e2e",
+                                         {"where": tag, "isa": isa, "variant": c["variant"], "lines_arg": c["lines_arg"],
+                                          "flag_deps": c["flag_deps"], "ignore_unknown": c["ignore_unknown"],
+                                          "file": c["file"][:1500], "difference": d})
 
 
 def _mnemonics(parser, lines, into):
@@ -565,10 +724,13 @@ def _mnemonics(parser, lines, into):
 
 
 def run_e2e_correspondence(ctx, volume, shipped=("zen2", "spr"), shipped_volume=None, a64_volume=None, a64_shipped=("tx2", "a64fx"),
-                           a64_shipped_volume=None):
+                           a64_shipped_volume=None, opt=False):
     """x86: `volume` synthetic models x 2-3 kernels x 4-5 variants, and `shipped_volume` (default: `volume`) kernels on each of
     the shipped models; AArch64: `a64_volume` (default: `volume`) synthetic models and `a64_shipped_volume` (default:
-    `shipped_volume`) kernels on each of `a64_shipped`"""
+    `shipped_volume`) kernels on each of `a64_shipped`.
+    `opt`: the DEFAULT (optimal) scheduling path -- the command line runs without `--fixed`, the model evaluates
+    `analyseWith` on the implementation's pressures after the two balancing passes (compared as under `--fixed`: everything
+    but the pressure cells is the model's own) and judges the pressures after the first pass admissible or not."""
     import warnings
 
     warnings.filterwarnings("ignore")
@@ -577,6 +739,10 @@ def run_e2e_correspondence(ctx, volume, shipped=("zen2", "spr"), shipped_volume=
 
     keys = ["files", "runs", "compared", "disagreements", "impl_errors", "errors_agreed", "edges", "cycles", "lines",
             "unknown_lines", "memory_lines", "reports_equal"]
+    if opt:
+        keys += ["admissibility_judged", "lines_judged", "uops_judged", "balanced_nonuniform", "second_pass_moved",
+                 "first_pass_inadmissible", "first_pass_inadmissible_multiplier_lt_1", "final_state_inadmissible",
+                 "first_pass_raised", "second_pass_raised", "totals_rounding_ties"]
     total = {k: 0 for k in keys}
     if shipped_volume is None:
         shipped_volume = volume
@@ -610,8 +776,9 @@ def run_e2e_correspondence(ctx, volume, shipped=("zen2", "spr"), shipped_volume=
                     for vname, lines, spec, _idx in variants_of(rng, body, isa):
                         text = "\n".join(lines) + ("\n" if rng.random() < 0.8 else "")
                         files.append((vname, text, spec, rng.random() < 0.3, rng.random() < 0.5))
-                run_cases(ctx, syn_arch, ymodel, stlf, pidx, files, st, "synthetic %s model %d" % (isa, mi), isa)
-                ctx.count("e2e_synthetic_models" if x86 else "e2e_a64_synthetic_models")
+                run_cases(ctx, syn_arch, ymodel, stlf, pidx, files, st, "synthetic %s model %d" % (isa, mi), isa, opt=opt,
+                          replay_info={"synthetic": True, "arch": syn_arch, "model": model})
+                ctx.count(("e2e_opt_" if opt else "e2e_") + ("synthetic_models" if x86 else "a64_synthetic_models"))
         finally:
             # the private copy of the arch file the synthetic models replaced
             if vol:
@@ -663,17 +830,25 @@ def run_e2e_correspondence(ctx, volume, shipped=("zen2", "spr"), shipped_volume=
                     continue
                 ymodel = pressure.yenc(small)
                 run_cases(ctx, arch, ymodel, stlf, pidx, files, st,
-                          "shipped model %s (restricted to %d forms)" % (arch, len(small["instruction_forms"])), isa)
-            ctx.count("e2e_shipped_models" if x86 else "e2e_a64_shipped_models")
-        pre = "e2e_" if x86 else "e2e_a64_"
+                          "shipped model %s (restricted to %d forms)" % (arch, len(small["instruction_forms"])), isa, opt=opt,
+                          replay_info={"synthetic": False, "arch": arch})
+            ctx.count(("e2e_opt_" if opt else "e2e_") + ("shipped_models" if x86 else "a64_shipped_models"))
+        pre = ("e2e_opt_" if opt else "e2e_") + ("" if x86 else "a64_")
         st["files"] -= total["files"]
         for k, v in st.items():
             ctx.count(pre + k, v)
             if k in total:
                 total[k] += v
-        ctx.cov["e2e" if x86 else "e2e_a64"] = dict(st)
-        ctx.log("e2e %s (file text -> report inside the model): %d runs, %d analyses compared (%d lines, %d memory-composed or load/store, "
+        ctx.cov[("e2e_opt" if opt else "e2e") + ("" if x86 else "_a64")] = dict(st)
+        ctx.log("e2e %s%s (file text -> report inside the model): %d runs, %d analyses compared (%d lines, %d memory-composed or load/store, "
                 "%d unknown, %d edges, %d cycles), %d reports byte-identical, %d agreed error outcomes, %d disagreements"
-                % (isa, st["runs"], st["compared"], st["lines"], st["memory_lines"], st["unknown_lines"], st["edges"], st["cycles"],
-                   st["reports_equal"], st["errors_agreed"], st["disagreements"]))
+                % (isa, " optimal scheduling" if opt else "", st["runs"], st["compared"], st["lines"], st["memory_lines"],
+                   st["unknown_lines"], st["edges"], st["cycles"], st["reports_equal"], st["errors_agreed"], st["disagreements"]))
+        if opt:
+            ctx.log("    pressures: %d runs judged (%d instruction lines, %d micro-ops), balanced away from uniform in %d, moved again by the "
+                    "second pass in %d; first pass inadmissible %d (+ %d on lines with a throughput multiplier < 1: finding, counted), "
+                    "raised %d; final state inadmissible %d, second pass raised %d (known C01 finding, counted); totals on a rounding tie %d"
+                    % (st["admissibility_judged"], st["lines_judged"], st["uops_judged"], st["balanced_nonuniform"],
+                       st["second_pass_moved"], st["first_pass_inadmissible"], st["first_pass_inadmissible_multiplier_lt_1"],
+                       st["first_pass_raised"], st["final_state_inadmissible"], st["second_pass_raised"], st["totals_rounding_ties"]))
     return total
